@@ -80,7 +80,7 @@ def replay_one(item):
 def run(ctx):
     gs = corpus(ctx)
     depth = 3 if ctx.quick else 4
-    cap = 120 if ctx.quick else 1500
+    cap = 320 if ctx.quick else 2500
     preps = pmap(prepare_one, [(i, g, depth, ctx.seed) for i, g in enumerate(gs)], seed=ctx.seed, chunksize=1)
     rng = ctx.rng('persist-sample')
     items, mc = [], []
@@ -89,7 +89,17 @@ def run(ctx):
         mc.append({'gi': pr['gi'], 'value_semantics': pr['value_semantics'], 'shared_node_attributes': pr['shared_node_attributes'],
                    'histories': len(hs)})
         if len(hs) > cap:
-            hs = [hs[0]] + rng.sample(hs[1:], cap-1)
+            # stratified: first one history per distinct sequence of operation names (with the variant of ApplyConn and
+            # Decode), then a random fill - a uniform sample of a state cover hardly ever contains a given pattern
+            shapes = {}
+            for h in hs[1:]:
+                key = tuple((o['op'], o['k'] if o['op'] in ('ApplyConn', 'Decode') else 0) for o in h)
+                shapes.setdefault(key, []).append(h)
+            picked = [rng.choice(v) for _, v in sorted(shapes.items())]
+            if len(picked) > cap - 1:
+                picked = rng.sample(picked, cap - 1)
+            rest = [h for h in hs[1:] if h not in picked]
+            hs = [hs[0]] + picked + rng.sample(rest, max(0, min(len(rest), cap - 1 - len(picked))))
         for h in hs:
             items.append((len(items), pr['g'], h))
     traces = pmap(replay_one, items, seed=ctx.seed)
